@@ -58,6 +58,8 @@ def construct_kind(src: str) -> str:
         return "nil-literal"
     if re.search(r"\{%-?\s*raw", src):
         return "raw"
+    if re.search(r"(?<![\w.'\"])\d+[A-Za-z_]\w*", src):
+        return "digit-leading-word"  # e.g. `3nil`: lexed as one word, parsed as a path whose root is not an identifier
     if re.search(r"\(\s*[\w.\[\]'\"-]+\s*\.\.", src) and re.search(r"\b(and|or|not)\b|[<>=!]=?|contains", src):
         return "range-operand-in-logical-expression"
     for pat, name in (
